@@ -809,10 +809,20 @@ class Interp:
                         if all(k.isdigit() for k in have):
                             have = sorted(have, key=int)
                         v.fields = {w: v.fields[h] for w, h in zip(want, have)}
+                    elif set(have) != set(want) and len(have) == len(want) and \
+                            all(h == w or (h not in want and w not in have) for h, w in zip(have, want)):
+                        # fields that were renamed in place (the rule lists them in declaration order): the names both sides know sit
+                        # at the same positions, the others are taken by position
+                        v.fields = {w: v.fields[h] for w, h in zip(want, have)}
             for k in list(v.fields):
                 v.fields[k] = self.canon_value(v.fields[k], depth + 1)
         elif isinstance(v, Vec):
             v.items[:] = [self.canon_value(x, depth + 1) for x in v.items]
+        elif isinstance(v, Ref) and depth < 3:
+            try:
+                self.canon_value(self.deref(v), depth + 1)      # what a rule hands in by reference (a state object) is canonicalised in place
+            except Exception:       # noqa: BLE001 - a reference the rule built loosely: leave it
+                pass
         elif isinstance(v, Sym) and v.adt and v.adt not in self.fx.adts and v.adt.split("::")[0] in self.fx.crates:
             v.adt = self.canon_path(v.adt)
         return v
